@@ -145,6 +145,30 @@ def shard_enum_story(args):
 
 
 @with_logging_config
+def shard_enum_story_big(args):
+    """The story-level enumeration again, on a very long running order: `fill` filler stories
+    first, so that every addressed story sits at a child index beyond 256 (where small-integer
+    identity, single-digit assumptions and the like stop holding)."""
+    from . import gen, build as B
+    modname, n, fill, max_sources = args
+    mod = _mod(modname)
+    col = Collector(mod.PROP)
+    sids = [f'S{i}' for i in range(n)]
+    root = ET.fromstring(gen.ro_with_layout(sids, 'after', items_for={s: ['I0', 'I1'] for s in sids[:2]}))
+    rc = root.find('roCreate')
+    first = [c.tag for c in rc].index('story')
+    for k in range(fill):
+        rc.insert(first + k, gen.plain_story(f'F{k:03d}'))
+    ro_xml = B.tostring(root)
+    for _label, msg_xml in gen.enum_story_messages(sids, max_sources=max_sources):
+        mod.record(col, eval_step({'ro_xml': ro_xml, 'msg_xml': msg_xml}))
+    col.scopes.append(f'story-level on a long running order: {fill} filler stories + n={n} addressed stories '
+                      f'(child indices > 256), every message kind x every ordered source tuple (<= {max_sources}) x every target')
+    col.classes['long-running-order(>256 children)'] += 1
+    return col
+
+
+@with_logging_config
 def shard_enum_item(args):
     """Exhaustive item-level scope: one (m items, paragraph layout) cell; a second
     story carries the same item IDs; the addressed story is first / last."""
@@ -162,6 +186,11 @@ def shard_enum_item(args):
             body.append(B.mk_item(i, slug=f'slug {sid}/{i}'))
         if playout in ('trailing-p', 'mixed'):
             body.append(B.P('trailing'))
+        if playout == 'anon-item':
+            # an item whose itemID tag is empty, second in line: no reference can name it
+            anon = B.mk_item('x', slug='anonymous')
+            anon.find('itemID').text = None
+            body.insert(min(1, len(body)), anon)
         st_ = B.mk_story(sid, slug=f'slug {sid}', timing=B.timing_block({'StoryDuration': '5'}), body=body)
         if playout == 'id-last':
             # the storyID (and the rest of the head) after the items: an item is child 0
